@@ -1,6 +1,7 @@
 """C06 — kernel cache keys separate every build configuration (Hypothesis + fresh worker processes).
 
-Item = {"A": cfg, "B": cfg, "mut": name}.  A cfg is *symbolic* (no absolute paths) so replay files are relocatable:
+Item = {"configs": [c0, c1, ..., cn, c0], "muts": [...]} (older replay form {"A","B"} = [A, B, A]).  A cfg is *symbolic*
+(no absolute paths) so replay files are relocatable:
 
   mode     "Serial" | "OpenMP"                 (same for A and B: the statement is about one device)
   kind     "file" | "string"                   buildKernel(file) | buildKernelFromString(text)
@@ -18,9 +19,10 @@ Item = {"A": cfg, "B": cfg, "mut": name}.  A cfg is *symbolic* (no absolute path
   okl      None | {"enabled": bool, "include_paths": ["A"|"B", ...]}
 
 The kernel is a configuration probe: it writes 14 ints, each a function of some of the properties (see expect()).
-Oracle: A, B, A are built+run in three fresh processes sharing one fresh cache directory; each run must print the
-values of *its own* configuration; a textually identical later build must resolve to the same entry (same
-kernel.hash(), same binaryFilename(), same inode, no kernel compilation seen by the compiler wrappers).
+Oracle: the configurations of the chain are built+run one after the other, each in a fresh process, all sharing one
+fresh cache directory; each run must print the values of *its own* configuration (never an earlier one's binary); a
+run that is textually identical to an earlier one must resolve to the same entry (same kernel.hash(), same
+binaryFilename(), same inode, no kernel compilation seen by the compiler wrappers).
 """
 import copy
 import json
@@ -331,39 +333,60 @@ def jv(v):
     return json.dumps(v, sort_keys=True)
 
 
+def configs_of(item):
+    """item = {"configs": [c0, c1, ...], "muts": [...]}; the older pair form {"A","B"} means [A, B, A]."""
+    if "configs" in item:
+        return item["configs"]
+    return [item["A"], item["B"], item["A"]]
+
+
 def differing(A, B):
     return [f for f in FIELDS + ["kind"] if A.get(f) != B.get(f)]
 
 
+def pair_nontrivial(A, B):
+    """-> set of reasons why the pair (A, B) is a collision candidate for a key that combines value hashes"""
+    why = set()
+    hdiff = [f for f in differing(A, B) if f in HASHED]
+    if not hdiff:
+        return why
+    if sorted(jv(A.get(f)) for f in HASHED) == sorted(jv(B.get(f)) for f in HASHED):
+        why.add("nt:same-multiset-of-values")
+    for c in (A, B):
+        for f in hdiff:
+            if c.get(f) is not None and any(g != f and c.get(g) is not None and jv(c.get(g)) == jv(c.get(f)) for g in HASHED):
+                why.add("nt:equal-values-across-properties")
+    return why
+
+
 def classify(item):
-    A, B = item["A"], item["B"]
-    diff = differing(A, B)
-    classes = ["mut:" + item.get("mut", "?"), "mode:" + A["mode"], "kind:" + A["kind"],
-               "A:" + ("okl" if okl_on(A) else ("rawC" if lang_c(A) else "raw")),
-               "B:" + ("okl" if okl_on(B) else ("rawC" if lang_c(B) else "raw"))]
-    if not diff:
-        classes.append("identical")
-        return classes, False
-    hdiff = [f for f in diff if f in HASHED]
+    cfgs = configs_of(item)
+    classes = ["mode:" + cfgs[0]["mode"], "configs:%d" % len(cfgs)]
+    classes += ["mut:" + x for x in item.get("muts", [item.get("mut", "?")])]
     nt = False
-    if hdiff:
-        ma = sorted(jv(A.get(f)) for f in HASHED)
-        mb = sorted(jv(B.get(f)) for f in HASHED)
-        if ma == mb:
-            classes.append("nt:same-multiset-of-values")
-            nt = True
-        for c in (A, B):
-            for f in hdiff:
-                if c.get(f) is None:
-                    continue
-                if any(g != f and c.get(g) is not None and jv(c.get(g)) == jv(c.get(f)) for g in HASHED):
-                    if "nt:equal-values-across-properties" not in classes:
-                        classes.append("nt:equal-values-across-properties")
-                    nt = True
-    if expect(A) == expect(B):
-        classes.append("different-text-same-effect")
-    for f in diff:
-        classes.append("diff:" + f)
+    seen_pairs = set()
+    for j in range(len(cfgs)):
+        classes.append("cfg:" + ("okl" if okl_on(cfgs[j]) else ("rawC" if lang_c(cfgs[j]) else "raw")) + ":" + cfgs[j]["kind"])
+        for i in range(j):
+            A, B = cfgs[i], cfgs[j]
+            key = (jv(A), jv(B))
+            if key in seen_pairs:
+                continue
+            seen_pairs.add(key)
+            diff = differing(A, B)
+            if not diff:
+                classes.append("pair:identical")
+                continue
+            classes.append("pair:different")
+            why = pair_nontrivial(A, B)
+            if why:
+                nt = True
+                classes += ["pair:" + w for w in sorted(why)]
+            if expect(A) == expect(B):
+                classes.append("pair:different-text-same-effect")
+            if j == i + 1:
+                if len(diff) == 1:
+                    classes.append("step-changes-only:" + diff[0])
     return classes, nt
 
 
@@ -372,7 +395,7 @@ def text(item):
 
 
 # --------------------------------------------------------------------------------------------------
-# evaluation: A, B, A in three fresh processes, one fresh cache directory
+# evaluation: every configuration of the chain in its own fresh process, one fresh cache directory
 # --------------------------------------------------------------------------------------------------
 def describe_mismatch(c, got):
     e = expect(c)
@@ -381,9 +404,9 @@ def describe_mismatch(c, got):
 
 
 def evaluate(ctx, item):
-    A, B = item["A"], item["B"]
-    if not (valid(A) and valid(B)) or A["mode"] != B["mode"]:
-        return {"status": "fail", "what": "harness: item is not a valid pair of configurations", "builds": 0}
+    cfgs = configs_of(item)
+    if not cfgs or not all(valid(c) for c in cfgs) or any(c["mode"] != cfgs[0]["mode"] for c in cfgs):
+        return {"status": "fail", "what": "harness: item is not a valid chain of configurations on one device", "builds": 0}
     ctx.case_no = getattr(ctx, "case_no", 0) + 1
     D = os.path.join(ctx.root, "c%d" % ctx.case_no)
     shutil.rmtree(D, ignore_errors=True)
@@ -392,13 +415,14 @@ def evaluate(ctx, item):
     runs = []
     builds = 0
     try:
-        for idx, (nm, c) in enumerate((("A", A), ("B", B), ("A", A))):
+        for idx, c in enumerate(cfgs):
             b = ctx.runner.build(request(c, D), cache, cwd)
             builds += 1
             runs.append(b)
-            who = "run %d (configuration %s)" % (idx + 1, nm)
+            who = "run %d" % (idx + 1)
             if not b.ok:
-                return {"status": "fail", "builds": builds, "what": "%s: build+run failed: %s" % (who, b.brief())}
+                return {"status": "fail", "builds": builds, "what": "%s: build+run failed: %s  [configuration %s]"
+                                                                    % (who, b.brief(), jv(c))}
             got = b.res["out"]
             if got != expect(c):
                 # diagnosis only: what does the same configuration print with an empty cache?
@@ -407,8 +431,10 @@ def evaluate(ctx, item):
                 fr = fresh.res["out"] if fresh.ok else fresh.brief()
                 shared = ""
                 for j, pb in enumerate(runs[:-1]):
-                    if pb.ok and pb.res["binary"] == b.res["binary"] and not b.compiles:
-                        shared = " -- it loaded the binary built by run %d (%s) without compiling" % (j + 1, b.res["binary"].split("/")[-2])
+                    if pb.res["binary"] == b.res["binary"] and not b.compiles:
+                        shared = (" -- it loaded the binary built by run %d (%s) without compiling; the two configurations differ in %s"
+                                  % (j + 1, b.res["binary"].split("/")[-2],
+                                     ", ".join("%s: %s -> %s" % (f, jv(cfgs[j].get(f)), jv(c.get(f))) for f in differing(cfgs[j], c))))
                         break
                 return {"status": "fail", "builds": builds,
                         "what": "%s ran code that does not belong to its configuration: %s%s [the same configuration with an "
@@ -416,13 +442,10 @@ def evaluate(ctx, item):
             if idx == 0 and not b.compiles:
                 return {"status": "fail", "builds": builds,
                         "what": "harness: first build in an empty cache was not seen by the compiler wrappers: %s" % b.cc_all}
-            same_as = None
-            if idx == 1 and A == B:
-                same_as = 0
-            if idx == 2:
-                same_as = 0
-            if same_as is not None:
-                r = runs[same_as]
+            same = [j for j in range(idx) if cfgs[j] == c]
+            if same:
+                j = same[0]
+                r = runs[j]
                 probs = []
                 if b.res["hash"] != r.res["hash"]:
                     probs.append("kernel.hash() %s != %s" % (b.res["hash"][:16], r.res["hash"][:16]))
@@ -430,13 +453,13 @@ def evaluate(ctx, item):
                     probs.append("binaryFilename() %s != %s" % (b.res["binary"], r.res["binary"]))
                 if b.compiles:
                     probs.append("the compiler was invoked again: %s" % b.compiles[0][:300])
-                if b.res["binary"] == r.res["binary"] and b.inode != r.inode and not (idx == 2 and runs[1].compiles and
-                                                                                     runs[1].res["binary"] == b.res["binary"]):
-                    probs.append("the binary file was replaced (inode/mtime %s -> %s)" % (r.inode, b.inode))
+                between = any(runs[k].compiles and runs[k].res["binary"] == b.res["binary"] for k in range(j + 1, idx))
+                if b.res["binary"] == r.res["binary"] and b.inode != r.inode and not between:
+                    probs.append("the binary file was replaced (inode/mtime/size %s -> %s)" % (r.inode, b.inode))
                 if probs:
                     return {"status": "fail", "builds": builds,
-                            "what": "%s is textually identical to run %d but did not resolve to the same cache entry: %s"
-                                    % (who, same_as + 1, "; ".join(probs))}
+                            "what": "%s is textually identical to run %d but did not resolve to the same cache entry: %s "
+                                    "[configuration %s]" % (who, j + 1, "; ".join(probs), jv(c))}
         return {"status": "ok", "what": "", "builds": builds}
     finally:
         shutil.rmtree(D, ignore_errors=True)
@@ -445,68 +468,88 @@ def evaluate(ctx, item):
 # --------------------------------------------------------------------------------------------------
 # generator
 # --------------------------------------------------------------------------------------------------
-MUTS = ["identity", "change", "change", "change", "swap", "swap", "equal", "common", "common", "move"]
-# fields for the change-one mutation (weights: the source text and the okl settings are single fields but whole key parts)
-CHANGE_FIELDS = FIELDS + ["kind", "srcid", "okl", "okl", "okl", "compiler", "compiler_env_script", "compiler_language"]
+PAIR_MUTS = ["swap", "swap", "equal", "common", "common", "move"]
+# Single-property changes are *swept*, not sampled: a chain changes every field of one group, one after the other (the
+# field choice of a sampled "change one" turned out to be very uneven over a 100-example Hypothesis run, so a mutant that
+# drops one property from the key could be missed).  Every hashed property, the source text and the build kind are in a group.
+GROUPS = [["compiler_flags", "compiler_linker_flags", "compiler_shared_flags", "srcid", "okl"],
+          ["defines", "functions", "includes", "headers", "callpf"],
+          ["compiler", "compiler_env_script", "compiler_language", "okl", "kind"]]
 
 
-def strategy():
+def strategy(max_pair_muts=2):
     from hypothesis import assume
     from hypothesis import strategies as st
 
     @st.composite
-    def pairs(draw):
-        A = {"mode": draw(st.sampled_from(["Serial", "OpenMP"])), "kind": draw(st.sampled_from(["file", "string"]))}
+    def chains(draw):
+        c0 = {"mode": draw(st.sampled_from(["Serial", "OpenMP"])), "kind": draw(st.sampled_from(["file", "string"]))}
         for f in FIELDS:
-            A[f] = copy.deepcopy(draw(st.sampled_from(ALPHABET[f])))
-        mut = draw(st.sampled_from(MUTS))
-        B = None
-        if mut == "identity":
-            A = repair(A)
-            B = copy.deepcopy(A)
-        elif mut == "change":
-            A = repair(A)
-            B = copy.deepcopy(A)
-            f = draw(st.sampled_from(CHANGE_FIELDS))
-            alts = [x for x in (ALPHABET[f] if f != "kind" else ["file", "string"]) if x != A.get(f)]
+            c0[f] = copy.deepcopy(draw(st.sampled_from(ALPHABET[f])))
+        cfgs, muts = [repair(c0)], []
+        # 1. sweep: change each field of one group in turn
+        g = draw(st.integers(0, len(GROUPS) - 1))
+        for f in GROUPS[g]:
+            cur = cfgs[-1]
+            alts = [x for x in (ALPHABET[f] if f != "kind" else ["file", "string"]) if x != cur.get(f)]
+            # mostly pick a value that changes what the kernel must write (an unobservable change proves nothing)
+            if draw(st.integers(0, 4)) > 0:
+                eff = []
+                for x in alts:
+                    t = copy.deepcopy(cur)
+                    t[f] = copy.deepcopy(x)
+                    t = repair(t)
+                    if valid(t) and expect(t) != expect(cur):
+                        eff.append(x)
+                alts = eff or alts
+            B = copy.deepcopy(cur)
             B[f] = copy.deepcopy(draw(st.sampled_from(alts)))
-        else:
+            B = repair(B)
+            if B != cur:
+                cfgs.append(B)
+                muts.append("change:" + f)
+        # 2. collision-seeking pair mutations
+        for _ in range(draw(st.integers(1, max_pair_muts))):
+            cur = cfgs[-1]
+            mut = draw(st.sampled_from(PAIR_MUTS))
             p, q = draw(st.sampled_from(PAIRS))
             if draw(st.booleans()):
                 p, q = q, p
             com = COMMON[pair_group(p)]
             v1 = copy.deepcopy(draw(st.sampled_from(com)))
             v2 = copy.deepcopy(draw(st.sampled_from([x for x in com if x != v1] if mut in ("swap", "common") else com)))
-            if mut == "swap":
-                A[p], A[q] = v1, v2
-                A = repair(A)
-                B = copy.deepcopy(A)
-                B[p], B[q] = A[q], A[p]
-            elif mut == "equal":
-                A[p], A[q] = v1, v2
-                A = repair(A)
-                B = copy.deepcopy(A)
-                B[q] = copy.deepcopy(A[p])
+            prep = copy.deepcopy(cur)
+            if mut in ("swap", "equal"):
+                prep[p], prep[q] = v1, v2
             elif mut == "common":
-                A[p], A[q] = v1, copy.deepcopy(v1)
-                A = repair(A)
-                B = copy.deepcopy(A)
+                prep[p], prep[q] = v1, copy.deepcopy(v1)
+            else:
+                prep[p], prep[q] = v1, None
+            prep = repair(prep)
+            B = copy.deepcopy(prep)
+            if mut == "swap":
+                B[p], B[q] = prep[q], prep[p]
+            elif mut == "equal":
+                B[q] = copy.deepcopy(prep[p])
+            elif mut == "common":
                 B[p], B[q] = v2, copy.deepcopy(v2)
-            else:  # move
-                A[p], A[q] = v1, None
-                A = repair(A)
-                B = copy.deepcopy(A)
-                B[p], B[q] = None, copy.deepcopy(A[p])
-        B = repair(B)
-        assume(valid(A) and valid(B))
-        return {"A": A, "B": B, "mut": mut}
+            else:
+                B[p], B[q] = None, copy.deepcopy(prep[p])
+            B = repair(B)
+            if prep != cur:
+                cfgs.append(prep)
+                muts.append("prepare:" + mut)
+            cfgs.append(B)          # B == prep is an identity step (textually identical rebuild)
+            muts.append(mut if B != prep else "identity")
+        # 3. the first configuration again: it must still resolve to its own entry
+        cfgs.append(copy.deepcopy(cfgs[0]))
+        muts.append("first-again")
+        assume(all(valid(c) for c in cfgs))
+        return {"configs": cfgs, "muts": muts}
 
-    return pairs()
+    return chains()
 
 
-# --------------------------------------------------------------------------------------------------
-# spec for v_hypproc.run_check
-# --------------------------------------------------------------------------------------------------
 class Spec:
     text = staticmethod(text)
 
@@ -551,11 +594,15 @@ class Spec:
         return evaluate(ctx, item)
 
 
-RULE = ("case = pair (A, B) of build configurations on one device (Serial or OpenMP; file- or string-built probe kernel), B derived "
-        "from A by identity / change one property / swap two same-typed properties / make two equal / set two to a new common "
-        "value / move a value; A, B, A are built and run in three fresh processes sharing one fresh cache directory. "
-        "Non-trivial = A != B in a hashed property and (the multiset of property values of A equals that of B, or a differing "
-        "property holds the same non-null value as another property in A or B). Distinct = distinct serialised pair.")
+RULE = ("case = chain c0, c1, ..., cn, c0 (n <= 13) of build configurations on one device (Serial or OpenMP; file- or string-built probe "
+        "kernel): first every property of one of three groups (together: all hashed properties, the source text, the build kind) "
+        "is changed in turn, mostly to a value that changes the expected output; then 1-2 collision-seeking mutations: swap two "
+        "same-typed properties / make two equal / set two to a new common value / move a value (each preceded by a step that sets "
+        "the two properties to values valid in both roles); finally c0 again. Every configuration is built and run in its own "
+        "fresh process, all sharing one fresh cache directory, so every ordered pair of the chain is a pair (A, B) of the property. "
+        "Non-trivial pair = differs in a hashed property and (the multiset of property values is the same, or a differing property "
+        "holds the same non-null value as another property in one of the two). distinct_nontrivial = distinct serialised chains "
+        "containing at least one non-trivial pair.")
 ASSUME = ["process environment fixed and constructed by the harness (no OCCA_*/CXX/CFLAGS/CPATH variables)",
           "gcc/clang semantics used by the probe: a later -D on the command line overrides an earlier one; CPATH directories are "
           "searched before -idirafter directories; a C driver (gcc/clang) compiles a .c file as C",
@@ -564,7 +611,7 @@ ASSUME = ["process environment fixed and constructed by the harness (no OCCA_*/C
 
 
 def run(prop, tier, replay, t0):
-    return vp.run_check(Spec(), prop, tier, replay, t0, quick=128, thorough=4000, level="exploration", rule=RULE,
+    return vp.run_check(Spec(), prop, tier, replay, t0, quick=48, thorough=1500, level="exploration", rule=RULE,
                         assumptions=ASSUME)
 
 
